@@ -644,3 +644,7 @@ impl V9 {
         Ok(result)
     }
 }
+
+#[cfg(netflow_parser_verif)]
+#[allow(unused_imports)]
+use crate::verif_hooks::HashMapExt as _;
